@@ -33,6 +33,65 @@ pub open spec fn name_end(p: Seq<u8>, off: int) -> Option<int> {
     if off < 0 || off >= p.len() { None } else { walk(p, off, p.len() as int, off, 16, 0, None) }
 }
 
+// the pointer-free expansion of the name (same recursion as `walk`)
+pub open spec fn exp(p: Seq<u8>, off: int, barrier: int, lowest: int, refs: int, nlen: int) -> Seq<u8>
+    decreases refs, p.len() - off
+{
+    if !(0 <= lowest <= off && refs >= 0) { Seq::<u8>::empty() }
+    else if off >= barrier || off >= p.len() { Seq::<u8>::empty() }
+    else { let b = p[off];
+        if b & 0xc0 == 0xc0 {
+            if refs <= 0 || off + 2 > p.len() { Seq::<u8>::empty() }
+            else { let t = ptr_target(b, p[off + 1]);
+                if t >= lowest { Seq::<u8>::empty() }
+                else if p[t] == 0 { Seq::<u8>::empty() }
+                else { exp(p, t, lowest, t, refs - 1, nlen) } }
+        } else if b > 63 { Seq::<u8>::empty() }
+        else if off + b + 1 > p.len() { Seq::<u8>::empty() }
+        else if nlen + b + 1 > 255 { Seq::<u8>::empty() }
+        else if has_bad(p, off + 1, off + 1 + b) { Seq::<u8>::empty() }
+        else if b == 0 { seq![0u8] }
+        else { p.subrange(off, off + b + 1) + exp(p, off + b + 1, barrier, lowest, refs, nlen + b + 1) } }
+}
+pub open spec fn name_exp(p: Seq<u8>, off: int) -> Seq<u8> { exp(p, off, p.len() as int, off, 16, 0) }
+
+// walk does not depend on the remembered end: only on whether one is remembered
+pub proof fn lemma_walk_fend(p: Seq<u8>, off: int, barrier: int, lowest: int, refs: int, nlen: int, f1: Option<int>, f2: Option<int>)
+    ensures walk(p, off, barrier, lowest, refs, nlen, f1).is_some() == walk(p, off, barrier, lowest, refs, nlen, f2).is_some()
+    decreases refs, p.len() - off
+{
+    if !(0 <= lowest <= off && refs >= 0) {}
+    else if off >= barrier || off >= p.len() {}
+    else {
+        let b = p[off];
+        if b & 0xc0 == 0xc0 {
+            if refs <= 0 || off + 2 > p.len() {} else {
+                let t = ptr_target(b, p[off + 1]);
+                if t >= lowest {} else if p[t] == 0 {} else {
+                    lemma_walk_fend(p, t, lowest, t, refs - 1, nlen, if f1.is_some() { f1 } else { Some(off + 2) }, if f2.is_some() { f2 } else { Some(off + 2) });
+                }
+            }
+        } else if b > 63 {} else if off + b + 1 > p.len() {} else if nlen + b + 1 > 255 {} else if has_bad(p, off + 1, off + 1 + b) {} else if b == 0 {} else {
+            lemma_walk_fend(p, off + b + 1, barrier, lowest, refs, nlen + b + 1, f1, f2);
+        }
+    }
+}
+// length of the expansion of a valid name: nlen + |exp| <= 255, |exp| >= 1, ends with the root label
+pub proof fn lemma_exp_len(p: Seq<u8>, off: int, barrier: int, lowest: int, refs: int, nlen: int, fend: Option<int>)
+    requires walk(p, off, barrier, lowest, refs, nlen, fend).is_some(), nlen >= 0
+    ensures 1 <= exp(p, off, barrier, lowest, refs, nlen).len() <= 255 - nlen,
+            exp(p, off, barrier, lowest, refs, nlen).last() == 0,
+    decreases refs, p.len() - off
+{
+    let b = p[off];
+    if b & 0xc0 == 0xc0 {
+        let t = ptr_target(b, p[off + 1]);
+        lemma_exp_len(p, t, lowest, t, refs - 1, nlen, if fend.is_some() { fend } else { Some(off + 2) });
+    } else if b == 0 { } else {
+        lemma_exp_len(p, off + b + 1, barrier, lowest, refs, nlen + b + 1, fend);
+    }
+}
+
 pub proof fn lemma_walk_bounds(p: Seq<u8>, off: int, barrier: int, lowest: int, refs: int, nlen: int, fend: Option<int>)
     requires barrier <= p.len(), fend.is_some() ==> 0 < fend.unwrap() <= p.len(),
     ensures walk(p, off, barrier, lowest, refs, nlen, fend) matches Some(e) ==> (0 < e <= p.len() && (fend.is_some() ==> e == fend.unwrap()) && (fend.is_none() ==> e > lowest)),
